@@ -14,6 +14,7 @@ import GfaModel.LineFmt
 import GfaModel.DocOrder
 import GfaModel.MergeGraph
 import GfaModel.Validate
+import GfaModel.Rgfa
 import GfaModel.Seq
 import GfaModel.Line
 import GfaModel.Levels
@@ -340,6 +341,7 @@ def step (d : DState) (cmd : String) (args : List (List Char)) : DState × Strin
      | some k => gresR d (G.mergeAll d.g k)
      | none => (d, "bad-op"))
   | "g.validate", [] => (d, match G.validateGfa d.g with | none => "ok" | some e => "gerr " ++ e.str)
+  | "g.rgfa", [h] => (d, match G.validateRgfa d.g (h == ['1']) with | none => "ok" | some e => "gerr " ++ e.str)
   | "g.lpaths", [] => (d, "ok " ++ ";".intercalate ((G.linearPaths d.g).map G.showPath))
   | "g.lpath", [s] =>
     (d, "ok " ++ G.showPath (G.linearPath (G.otherEnds d.g) (G.pathFuel d.g) (str s) []).1)
